@@ -3508,6 +3508,137 @@ Qed.
 Theorem visit_lbk : forall e g hc pc ns r, visit bs e g hc pc ns = inr r -> lbk e.
 Proof. intros e. apply (proj1 (visit_lbk_aux e)). Qed.
 
+(* ... and conversely: if every look-behind body has that shape the compiler never reports
+   LookBehindNotConst *)
+Lemma bindc_inl {A} (m : cerr + A) f er : bindc m f = inl er -> m = inl er \/ exists x, m = inr x /\ f x = inl er.
+Proof. destruct m; simpl; intros H; [left; congruence|right; eauto]. Qed.
+
+Definition NL (e : expr) : Prop := forall g hc pc ns, lbk e -> visit bs e g hc pc ns <> inl CLookBehindNotConst.
+
+Ltac nl_start x :=
+  intros g0 hc pc ns Hk Hv;
+  destruct (negb hc && negb (hard bs g0 x)) eqn:Edel;
+  [rewrite (visit_short x g0 hc pc ns Edel) in Hv; discriminate|].
+
+Definition cfnl (cf : expr -> nat -> nat -> nat -> cerr + cres) (x : expr) : Prop :=
+  forall g pc ns, cf x g pc ns <> inl CLookBehindNotConst.
+Lemma galt_nl cf : forall l, Forall (cfnl cf) l -> forall g pc ns, galt_codes cf g pc ns l <> inl CLookBehindNotConst.
+Proof.
+  induction 1 as [|x r Hx Hr IH]; intros g pc ns Hc; [discriminate|].
+  destruct r as [|y r].
+  - cbn [galt_codes] in Hc. destruct (cf x g pc ns) as [er|[c n1]] eqn:E; [|discriminate]. inversion Hc; subst. eapply Hx; eauto.
+  - rewrite galt_codes_cons2 in Hc. destruct (cf x g (pc + 1) ns) as [er|[c n1]] eqn:E.
+    + inversion Hc; subst. eapply Hx; eauto.
+    + destruct (galt_codes cf _ _ _ (y :: r)) as [er|[cds n2]] eqn:E2; [|discriminate]. inversion Hc; subst. eapply IH; eauto.
+Qed.
+Lemma gseq_nl cf : forall l, Forall (cfnl cf) l -> forall g pc ns, gseq_codes cf g pc ns l <> inl CLookBehindNotConst.
+Proof.
+  induction 1 as [|x r Hx Hr IH]; intros g pc ns Hc; cbn [gseq_codes] in Hc; [discriminate|].
+  apply bindc_inl in Hc as [Hc|([c1 n1] & H1 & Hc)]; [eapply Hx; eauto|].
+  apply bindc_inl in Hc as [Hc|([c2 n2] & H2 & Hc)]; [eapply IH; eauto|discriminate].
+Qed.
+
+Lemma la_inner_nl la x : NL x -> lbk x -> (is_behind la = true -> const_size x = true) ->
+  forall g pc ns, la_inner la x g pc ns <> inl CLookBehindNotConst.
+Proof.
+  intros Hx Hk Hc g pc ns Hi. destruct la; cbn [la_inner is_behind] in *; try (eapply Hx; eauto; fail);
+    rewrite (Hc eq_refl) in Hi; apply bindc_inl in Hi as [Hi|([c n1] & H1 & Hi)]; try discriminate; eapply Hx; eauto.
+Qed.
+Lemma la_pos_nl la x : NL x -> lbk x -> (is_behind la = true -> const_size x = true) -> cfnl (la_pos la) x.
+Proof.
+  intros Hx Hk Hc g pc ns Hv. unfold la_pos in Hv. cbv zeta in Hv.
+  apply bindc_inl in Hv as [Hv|([c n1] & H1 & Hv)]; [|discriminate]. eapply la_inner_nl; eauto.
+Qed.
+Lemma la_neg_nl la x : NL x -> lbk x -> (is_behind la = true -> const_size x = true) -> cfnl (la_neg la) x.
+Proof.
+  intros Hx Hk Hc g pc ns Hv. unfold la_neg in Hv.
+  apply bindc_inl in Hv as [Hv|([c n1] & H1 & Hv)]; [|discriminate]. eapply la_inner_nl; eauto.
+Qed.
+
+Lemma visit_list_nl : forall l, Forall NL l -> lbk_list l -> forall g pc ns, visit_list g pc ns l <> inl CLookBehindNotConst.
+Proof.
+  induction 1 as [|x l Hx Hr IH]; intros Hk g pc ns Hv; cbn [visit_list] in Hv; [discriminate|]. destruct Hk as [K1 K2].
+  apply bindc_inl in Hv as [Hv|([c1 n1] & H1 & Hv)]; [eapply Hx; eauto|].
+  apply bindc_inl in Hv as [Hv|([c2 n2] & H2 & Hv)]; [eapply IH; eauto|discriminate].
+Qed.
+
+Lemma lbk_list_in l x : lbk_list l -> In x l -> lbk x.
+Proof. induction l as [|y r IH]; intros H Hx; [destruct Hx|]. destruct H. destruct Hx as [<-|Hx]; auto. Qed.
+
+Lemma visit_nl_aux : forall e, NL e /\ Forall NL (alts_of e).
+Proof.
+  induction e using expr_ind'.
+  all: try match goal with |- NL ?e /\ Forall NL (alts_of ?e) =>
+         match e with
+         | Alt _ => idtac
+         | _ => assert (H1 : NL e); [|split; [exact H1|constructor; [exact H1|constructor]]] end end.
+  all: try (intros g0 hc pc ns Hk Hv; cbn [visit] in Hv;
+            repeat match type of Hv with (if ?b then _ else _) = _ => destruct b end; discriminate).
+  - (* Concat *)
+    assert (Hkk : Forall NL es) by (eapply Forall_impl; [|exact H]; intros a Ha; apply Ha).
+    nl_start (Concat es). rewrite visit_concat in Hv. rewrite Edel in Hv. cbv zeta in Hv.
+    pose proof (cat_bounds bs hc g0 es) as Hb.
+    unfold cat_pe, cat_sb in Hb. cbv zeta in Hb.
+    set (pe := prefix_count bs g0 es) in *. set (sb := length es - _) in *.
+    set (A := firstn pe es) in *. set (B := firstn (sb - pe) (skipn pe es)). set (C := skipn sb es) in *.
+    assert (Hes : es = A ++ B ++ C).
+    { unfold A, B, C. rewrite <- (firstn_skipn pe es) at 1. f_equal.
+      rewrite <- (firstn_skipn (sb - pe) (skipn pe es)) at 1. f_equal. rewrite skipn_add. f_equal. lia. }
+    assert (HlA : length A = pe) by (unfold A; apply firstn_length_le; lia).
+    assert (HlB : length B = sb - pe) by (unfold B; apply firstn_length_le; rewrite skipn_length; lia).
+    apply bindc_inl in Hv as [Hm|([cm ns1] & Hm & Hv)]; [|discriminate].
+    rewrite Hes in Hm. rewrite (mid_before pe sb (B ++ C) _ ns A 0 g0) in Hm by lia.
+    rewrite (mid_mid pe sb C B) in Hm by lia.
+    rewrite lbk_concat, Hes in Hk. apply lbk_list_app in Hk as [_ Hk]. apply lbk_list_app in Hk as [HkB _].
+    rewrite Hes in Hkk. apply Forall_app in Hkk as [_ Hkk]. apply Forall_app in Hkk as [HB _].
+    eapply visit_list_nl; eauto.
+  - (* Alt *)
+    assert (Hkk : Forall NL es) by (eapply Forall_impl; [|exact H]; intros a Ha; apply Ha).
+    split; [|exact Hkk]. nl_start (Alt es). rewrite visit_alt in Hv. rewrite Edel in Hv.
+    destruct (alt_codes hc g0 pc ns es) as [er|[cds n1]] eqn:Hc; [|discriminate]. inversion Hv; subst.
+    rewrite alt_codes_galt in Hc. rewrite lbk_alt in Hk.
+    eapply (galt_nl (fun x g pc ns => visit bs x g hc pc ns) es); [|exact Hc].
+    apply Forall_forall. intros x Hx g pc0 ns0 Hv0. rewrite Forall_forall in Hkk.
+    eapply (Hkk x Hx); eauto. eapply lbk_list_in; eauto.
+  - (* Group *) destruct IHe as [IHe _]. nl_start (Group e). cbn [visit] in Hv. rewrite Edel in Hv. cbn [lbk] in Hk.
+    apply bindc_inl in Hv as [Hv|([c n1] & H1 & Hv)]; [eapply IHe; eauto|discriminate].
+  - (* LookAround *) destruct IHe as [IHe IHalts]. nl_start (LookAround e la). cbn [lbk] in Hk. destruct Hk as [Hk Hshape].
+    destruct (match la, e with (LookBehind | LookBehindNeg), Alt _ => negb (const_size e) | _, _ => false end) eqn:Esp.
+    + destruct e as [| | | | |es| | | | | | | | | | |]; try (destruct la; discriminate).
+      assert (Hcs : const_size (Alt es) = false) by (destruct la; try discriminate; now apply negb_true_iff in Esp).
+      assert (Hbeh : is_behind la = true) by (destruct la; try discriminate; reflexivity).
+      destruct (Hshape Hbeh) as [Hc|(es' & E' & Hall)]; [congruence|]. inversion E'; subst es'.
+      cbn [alts_of] in IHalts. rewrite lbk_alt in Hk.
+      destruct la; try discriminate.
+      * rewrite (visit_lb_split es g0 hc pc ns Hcs) in Hv.
+        destruct (galt_codes (la_pos LookBehind) g0 pc ns es) as [er|[cds n1]] eqn:Hc; [|discriminate]. inversion Hv; subst.
+        eapply (galt_nl (la_pos LookBehind) es); [|exact Hc].
+        apply Forall_forall. intros x Hx. rewrite Forall_forall in IHalts, Hall.
+        apply la_pos_nl; [apply IHalts; auto|eapply lbk_list_in; eauto|intros _; apply Hall; auto].
+      * rewrite (visit_lbn_split es g0 hc pc ns Hcs) in Hv. eapply (gseq_nl (la_neg LookBehindNeg) es); [|exact Hv].
+        apply Forall_forall. intros x Hx. rewrite Forall_forall in IHalts, Hall.
+        apply la_neg_nl; [apply IHalts; auto|eapply lbk_list_in; eauto|intros _; apply Hall; auto].
+    + assert (Hlb : lb_alt_const e la).
+      { destruct la; try exact I; destruct e; try exact I; cbn [lb_alt_const]; now apply negb_false_iff in Esp. }
+      rewrite (visit_la e la g0 hc pc ns Hlb) in Hv. rewrite Edel in Hv.
+      assert (Hcst : is_behind la = true -> const_size e = true).
+      { intros Hb. destruct (Hshape Hb) as [Hc|(es' & -> & Hall)]; [exact Hc|]. destruct la; try discriminate; exact Hlb. }
+      destruct la; [eapply la_pos_nl|eapply la_neg_nl|eapply la_pos_nl|eapply la_neg_nl]; eauto.
+  - (* Repeat *) destruct IHe as [IHe _]. nl_start (Repeat e lo hi gr). cbn [visit] in Hv. rewrite Edel in Hv. cbn [lbk] in Hk.
+    repeat match type of Hv with (if ?b then _ else _) = _ => destruct b end; try discriminate;
+      (apply bindc_inl in Hv as [Hv|([c n1] & H1 & Hv)]; [eapply IHe; eauto|discriminate]).
+  - (* AtomicGroup *) destruct IHe as [IHe _]. nl_start (AtomicGroup e). cbn [visit] in Hv. rewrite Edel in Hv. cbn [lbk] in Hk.
+    apply bindc_inl in Hv as [Hv|([c n1] & H1 & Hv)]; [eapply IHe; eauto|discriminate].
+  - (* Conditional *) destruct IHe1 as [IH1 _]. destruct IHe2 as [IH2 _]. destruct IHe3 as [IH3 _].
+    nl_start (Conditional e1 e2 e3). cbn [visit] in Hv. rewrite Edel in Hv. cbn [lbk] in Hk. destruct Hk as (K1 & K2 & K3).
+    apply bindc_inl in Hv as [Hv|([cc n1] & H1 & Hv)]; [eapply IH1; eauto|].
+    apply bindc_inl in Hv as [Hv|([cy n2] & H2 & Hv)]; [eapply IH2; eauto|].
+    apply bindc_inl in Hv as [Hv|([cn n3] & H3 & Hv)]; [eapply IH3; eauto|discriminate].
+Qed.
+
+Theorem visit_not_lbnc : forall e g hc pc ns, lbk e -> visit bs e g hc pc ns <> inl CLookBehindNotConst.
+Proof. intros e. apply (proj1 (visit_nl_aux e)). Qed.
+
 End D.
 
 End CC.
